@@ -248,6 +248,8 @@ func runC19(ops []string) CaseResult {
 	var exports []*c19Export
 	firstN := 0
 	leavesSet := false
+	var fresh *util.MerkleTree
+	freshKey := ""
 	fail := func(i int, f string, a ...interface{}) {
 		if len(res.Fails) < 20 {
 			res.Fails = append(res.Fails, fmt.Sprintf("op %d (%s): ", i, ops[i])+fmt.Sprintf(f, a...))
@@ -521,12 +523,15 @@ func runC19(ops []string) CaseResult {
 					}
 				}
 				if len(leaves) > 0 {
-					fresh := &util.MerkleTree{}
-					hs := make([]util.Hashable, len(leaves))
-					for k, l := range leaves {
-						hs[k] = c19Hashable(l)
+					// the fresh object is rebuilt only when the content has changed since the last find
+					if key := strings.Join(leaves, ","); fresh == nil || key != freshKey {
+						fresh, freshKey = &util.MerkleTree{}, key
+						hs := make([]util.Hashable, len(leaves))
+						for k, l := range leaves {
+							hs[k] = c19Hashable(l)
+						}
+						fresh.ComputeTree(hs)
 					}
-					fresh.ComputeTree(hs)
 					if fi := fresh.GetLeafIndex(c19Hashable(h)); fi != gi {
 						fail(i, "GetLeafIndex(%q) = %d, a fresh object with the same content answers %d", c19Abbrev(h), gi, fi)
 					}
@@ -923,9 +928,6 @@ func c19Body(r *rand.Rand, head, extra []string, orig []string, tag string, tier
 	ops = append(ops, "load 0")
 	find(orig[0])
 	find(c19Leaf(tag+"f", 0))
-	if n <= 300 {
-		ops = append(ops, "verifyall")
-	}
 	return ops
 }
 
